@@ -637,7 +637,7 @@ func TestVerif_C40(t *testing.T) {
 	if r.Thorough() {
 		scns = append(scns,
 			&c40scn{name: "3c/c0-c1-fail/longer/no-timer-first", bound: 2, tf: false, maxPen: 2, nClients: 3, base: []int{0, 0, 1}, plan: [][]bool{T, {true, false, true}, F},
-				callers: [][]c40op{{do, do, do}, {dt, after(3*sec, dt)}, {dd, dd}}},
+				callers: [][]c40op{{do, do}, {dt, after(3*sec, dt)}, {dd}}},
 			&c40scn{name: "3c/warm/add-remove-mix", bound: 2, tf: true, maxPen: 2, nClients: 2, base: []int{0, 0, 0}, hold: []time.Duration{sec, 0, 0}, plan: [][]bool{F, T, F}, warm: true,
 				callers: [][]c40op{{do, do}, {dt, dt}, {after(sec, dd)}}, member: []c40mem{{kind: "add", ids: []int{2}}, {kind: "remove", ids: []int{1}}, {pause: sec, kind: "remove", ids: []int{0, 2}}}})
 	}
